@@ -8,6 +8,7 @@ import (
 	"path/filepath"
 	"sort"
 	"strings"
+	"time"
 	"testing/fstest"
 
 	goat "github.com/philhassey/goatlang"
@@ -234,7 +235,7 @@ func checkC07(c *Ctx) {
 			sub := &Ctx{ID: c.ID, Tier: c.Tier, Seed: c.Seed, Work: filepath.Join(c.Work, fmt.Sprintf("b%d", b)), Workers: 4}
 			dir := sub.specWorkDir("abs")
 			writeJSON(filepath.Join(dir, "progs.json"), progs[lo:hi])
-			res := sub.runTLC(dir, TLCOpts{Module: "GoatVMAbs", Cfg: "MC_GoatVMAbs.cfg", Workers: 4, AllowError: true, HeapMB: 3000, ExtraArgs: []string{"-continue"}})
+			res := sub.runTLC(dir, TLCOpts{Module: "GoatVMAbs", Cfg: "MC_GoatVMAbs.cfg", Workers: 4, AllowError: true, HeapMB: 3000, ExtraArgs: []string{"-continue"}, Timeout: time.Duration(c.pick(120, 900)) * time.Second, PartialOnTimeout: true})
 			for _, s := range res.Records["ST"] {
 				var st stState
 				if json.Unmarshal([]byte(s), &st) == nil {
